@@ -479,6 +479,23 @@ def c08(scn, x, worker_facts):
             for wid in worker_facts:
                 if r["name"].endswith("." + wid) or ("." + wid + ".") in r["name"]:
                     prev_pass[_strip_nets(r["name"])].add(wid)
+    # producers known from the replayed previous job(s): a PASS result of a test that sets the state, on the worker named in the result
+    prev_producers = collections.defaultdict(set)
+    if scn.previous:
+        sets_of = {}
+        for n in x.final["nodes"]:
+            if n["sets"]:
+                sets_of.setdefault(n["ident"], n["sets"])
+        for r in scn.previous:
+            if r.get("status") != "PASS":
+                continue
+            sets = sets_of.get(_strip_nets(r["name"]))
+            if not sets:
+                continue
+            for wid in worker_facts:
+                if r["name"].endswith("." + wid) or ("." + wid + ".") in r["name"]:
+                    for t in sets:
+                        prev_producers[(t[0], t[1], t[2])].add(wid)
     for e in x.trace:
         if e["k"] == "door" and e.get("asked_by") and e["w"] != e["asked_by"]:
             out.append({"what": f"state control ({e['do']}) for a test of worker {e['asked_by']} was carried out in the environment of {e['w']} (session {e.get('session')})",
@@ -509,7 +526,7 @@ def c08(scn, x, worker_facts):
                 if state in ROOT_STATES or perm:
                     continue
                 loc = e["locs"].get(suffix)
-                expected = set(passed_by[(suffix, variant, state)])
+                expected = set(passed_by[(suffix, variant, state)]) | prev_producers[(suffix, variant, state)]
                 if loc is None:
                     if expected:
                         out.append({"what": f"{e['short']} on {e['w']} is given no source location at all for {state} of {suffix} although {sorted(expected)} produced it in this run",
